@@ -21,6 +21,9 @@ func (s *subContext) GetMatch(idx int) string {
 	if idx >= 0 && idx < len(s.vals) {
 		return s.vals[idx]
 	}
+	if idx < 0 && s.parent != nil { // not an element: forward, so a context touch (eg. {time live}) reaches the outer context
+		return s.parent.GetMatch(idx)
+	}
 	return ""
 }
 
